@@ -20,32 +20,37 @@ Domain hypotheses, all explicit:
   dispatches on the system of the FIRST record);
 * `DistinctStrings l` — version strings pairwise distinct (a package has one record per
   version; with duplicates the comparator has ties and `sort.Slice` may order them either way);
-* `CmpLawful s l` — C01's laws hold for the ecosystem comparison on the parsed versions of
-  the list. **Proved** for NPM, PyPI and the default system (C01), so it is not a hypothesis
-  of the NPM/PyPI theorems; for Maven it is a hypothesis (finding F-C12-mvn-intrans =
+* `OrderLawful s l` — the comparator of `SortVersions` is a strict weak order on the list's
+  records whose ties have identical version strings. Decidable (`classify_sound`), implied by
+  C01's laws on the list's parsed versions (`CmpLawful`, `orderLawful_of_cmpLawful`), hence
+  **proved** for NPM, PyPI and the default system (`orderLawful_npm/pypi/default`) and not a
+  hypothesis of their theorems; for Maven it is a hypothesis (finding F-C12-mvn-intrans =
   C01's F-C01-mvn-zeroq: Maven's comparison is intransitive).
 * `TagsExact l` — "latest" occurs in a tag string only as a whole tag (finding
   F-C12-latest-substr: the code tests `strings.Contains(tags, "latest")`).
+
+All theorems have the form "if the call returns `r` (`Outcome.ok r`) then …": that
+`MatchRequirement` never panics is C04's subject, not proved here.
 
 What is proved:
 
 | clause | theorem | kind |
 |---|---|---|
-| (i) exactly the satisfying records | `matchReq_exact` (+ `matchReq_mem_iff`) | full, every system |
-| (ii) ascending, default path | `matchReq_ascending_default`, `sortVersions_ascending` | full given `CmpLawful` (PyPI: `…_pypi`, unconditional) |
+| (i) exactly the satisfying records | `matchReq_exact`, `matchReq_mem_iff` | full, every system |
+| (ii) ascending, default path | `sortVersions_ascending`, `matchReq_ascending_default` | full given `OrderLawful`; PyPI unconditional: `matchReq_ascending_pypi` |
 | (ii) npm order as coded (substring test) | `npm_order_as_coded`, `matchReq_npm_ordered` | full |
-| (ii) npm order as stated (tag `latest`) | `npm_order_partial` | partial: `TagsExact`; refuted without it: `npm_order_statement_false` |
-| (iii) order-insensitive | `perm_npm`, `perm_pypi`, `perm_unknown` | full |
-| (iii) Maven | `perm_maven_partial` | partial: `CmpLawful`; refuted without it: `maven_perm_statement_false` |
+| (ii) npm order as stated (tag `latest`) | `npm_order_partial`, `matchReq_npm_ordered_partial` | partial: `TagsExact`; refuted without it: `npm_order_statement_false` |
+| (iii) order-insensitive | `sortVersions_perm`, `matchReq_perm`; `perm_npm`, `perm_pypi`, `perm_unknown` | full |
+| (iii) Maven | `perm_maven_partial` | partial: `OrderLawful`; refuted without it: `maven_perm_statement_false` |
 | npm non-range | `matchReq_npm_nonrange` | full |
 | default non-range | `matchReq_default_nonrange` | full |
+| what the order is | `lt_iff`, `le_iff_not_lt` | full |
 -/
 namespace DepsDev.Props.C12
 
 open List DepsDev DepsDev.Semver DepsDev.Resolve.Match
 open DepsDev.Proofs.SortUnique DepsDev.Proofs.C12Order DepsDev.Proofs.C12Match
 
-abbrev RVersion := Resolve.Match.Version
 
 /-! ## Vocabulary of the statement -/
 
@@ -280,9 +285,9 @@ theorem npm_witness : sortNPMVersions [w1, w2] = .ok [w2, w1] ∧
     matchReq (mkreq .npm "*") [w1, w2] = .ok [w2, w1] := by
   constructor <;> decide +kernel
 
-theorem npm_order_statement_false : ¬ NpmOrderStatement := by
-  intro h
-  have hr := h [w1, w2] [w2, w1] (by unfold DistinctStrings; decide +kernel) npm_witness.1
+/-- `[2.0.0, 1.0.0 #notlatest]` is not the stated npm arrangement of any list. -/
+theorem npm_witness_not_ordered (l : List RVersion) : ¬ NpmOrdered exactLatest l [w2, w1] := by
+  intro hr
   have nle : ¬ Le .npm w2 w1 := by unfold Le vle; decide +kernel
   generalize hq : [w2, w1] = q at hr
   cases hr with
@@ -298,6 +303,10 @@ theorem npm_order_statement_false : ¬ NpmOrderStatement := by
     have hf : exactLatest w1 = false := by decide +kernel
     rw [hf] at this
     cases this
+
+theorem npm_order_statement_false : ¬ NpmOrderStatement := by
+  intro h
+  exact npm_witness_not_ordered _ (h [w1, w2] [w2, w1] (by unfold DistinctStrings; decide +kernel) npm_witness.1)
 
 /-! ## `MatchRequirement` -/
 
@@ -557,5 +566,23 @@ example :
     matchReq (mkreq .maven "[1.0,2.0)") [mkv .maven "2.0", mkv .maven "1.0.0", mkv .maven "1.0", mkv .maven "1.5"] =
       .ok [mkv .maven "1.0", mkv .maven "1.0.0", mkv .maven "1.5"] := by
   constructor <;> decide +kernel
+
+/-! RESTS-ON (DESIGN 3.3) — per theorem group: model definitions unfolded; Gen constants; tie.
+
+* (i) matchReq_exact, matchReq_mem_iff, matchReq_npm_nonrange, matchReq_default_nonrange:
+  Resolve.Match.{matchReq, matchNPMRequirement, matchRequirement, filterMatch, npmExact, sortNPMVersions,
+  sortVersions, sortBase, moveLatest}; Semver.{parseConstraint, Constraint.matchStr} as opaque functions;
+  no Gen constant; tie: ops `matchreq` (oracles exact, order, perm).
+* (ii) sortVersions_ascending, matchReq_ascending_*, npm_order_as_coded, npm_order_partial, lt_iff:
+  Resolve.Match.{less, dec, goSort, insertLast, sortBase, moveLatest, splitLast, containsSub, splitOn};
+  Semver.{parse, vcompare} through C01's `Laws` (C01.generic, C01.pypi, C01.parse_wf, which rest on
+  Gen.SemverTables via the semver model); tie: ops `sortv`, `matchreq`.
+* (iii) sortVersions_perm, matchReq_perm, perm_*: the same plus Proofs.SortUnique; tie: ops `matchreq`
+  / `sortv` on permutations of one list.
+* refutations npm_order_statement_false, maven_perm_statement_false, maven_witness_unlawful: kernel
+  evaluation of the model (including Semver.parse, vcompare, parseConstraint, hence Gen.SemverTables)
+  on the witnesses; tie: the witnesses are replayed on the real code on every run (known findings).
+* classify_sound: Resolve.Match.{orderLawfulB, tagsExactB}; tie: op `classify`.
+-/
 
 end DepsDev.Props.C12
